@@ -65,6 +65,14 @@ func (e *Engine) registerValue(key string, t types.Type, v SV, st *State, depth 
 	if isTimeType(t) {
 		return
 	}
+	if b, ok := t.Underlying().(*types.Basic); ok && b.Info()&types.IsString != 0 {
+		id := ts[0]
+		vc.addModelTerm(fmt.Sprintf("(strlen %s)", id), key+":strlen")
+		for k := 0; k < replayElems; k++ {
+			vc.addModelTerm(fmt.Sprintf("(strat %s %d)", id, k), fmt.Sprintf("%s:strat:%d", key, k))
+		}
+		return
+	}
 	switch u := t.Underlying().(type) {
 	case *types.Slice:
 		s := v.(*SliceSV)
@@ -486,7 +494,19 @@ func (e *Engine) genValue(g *goGen, key string, t types.Type, model map[string]*
 			return fmt.Sprintf("\t%s := %s(%v)\n", name, ts, v != nil && v.Sign() != 0), true
 		}
 		if u.Info()&types.IsString != 0 {
-			return "", false
+			n := model[key+":strlen"]
+			if n == nil || n.Sign() < 0 || n.Int64() > replayElems {
+				return "", false
+			}
+			var bs []string
+			for k := int64(0); k < n.Int64(); k++ {
+				v := model[fmt.Sprintf("%s:strat:%d", key, k)]
+				if v == nil {
+					v = big.NewInt(0)
+				}
+				bs = append(bs, signedVal(v, 8, false).String())
+			}
+			return fmt.Sprintf("\t%s := %s([]byte{%s})\n", name, ts, strings.Join(bs, ", ")), true
 		}
 	case *types.Slice:
 		w, s, ok := intInfo(u.Elem())
